@@ -212,7 +212,7 @@ class Session(object):
         self.n = 0
         self.jit = os.path.join(REPO, "miasm", "jitter")
         self.runtime = None
-        self.stats = {"compiles": 0, "children": 0, "crashes": 0}
+        self.stats = {"compiles": 0, "children": 0, "crashes": 0, "blamed_then_cleared": 0, "alone_fallback": 0}
 
     # -- building ---------------------------------------------------------
     def _cc(self, args, what):
@@ -245,57 +245,114 @@ class Session(object):
         self.n += 1
         base = os.path.join(self.scratch, "b%d" % self.n)
         live = [i for i, it in enumerate(items) if it.ctext is not None and it.compile_error is None]
-        for attempt in range(4):
+        blamed = set()
+        for attempt in range(8):
             if not live:
                 return None
-            src_lines = PRELUDE.split("\n")
-            owner = {}
-            for i in live:
-                start = len(src_lines) + 1
-                wl = wrapper_lines(i, items[i])
-                src_lines.extend(wl)
-                for k in range(start, start + len(wl)):
-                    owner[k] = i
+            if attempt == 5:
+                # attribution from the compiler output did not converge: compile every function alone
+                self.stats["alone_fallback"] += 1
+                live = self._filter_alone(items, live, base)
+                if not live:
+                    return None
+            rc, out, owner = self._compile_unit(items, live, base, table=True)
+            if rc == 0:
+                # every blamed function must also fail in a unit made of the blamed functions only
+                if blamed:
+                    rc2, out2, owner2 = self._compile_unit(items, sorted(blamed), base + "_bad", table=False)
+                    still = set(self._blame_ext(out2, owner2, base + "_bad", sorted(blamed), items)) if rc2 != 0 else set()
+                    innocent = blamed - still
+                    if innocent:
+                        self.stats["blamed_then_cleared"] += len(innocent)
+                        for i in innocent:
+                            items[i].compile_error = None
+                        blamed -= innocent
+                        live = sorted(set(live) | innocent)
+                        continue
+                break
+            bad = self._blame_ext(out, owner, base, live, items)
+            if not bad:
+                raise RuntimeError("batch does not compile and no function is to blame:\n%s" % out[-3000:])
+            for i, msg in bad.items():
+                items[i].compile_error = msg
+                blamed.add(i)
+            live = [i for i in live if i not in bad]
+        else:
+            raise RuntimeError("batch still does not compile:\n%s" % out[-3000:])
+        so = base + ".so"
+        rc, out = self._cc(["-shared", "-Wl,-z,defs", "-o", so, base + ".o"] + self.build_runtime() + ["-lm", "-lc"], "link")
+        if rc != 0:
+            raise RuntimeError("link failed:\n%s" % out[-3000:])
+        return so
+
+    def _compile_unit(self, items, live, base, table):
+        src_lines = PRELUDE.split("\n")
+        owner = {}
+        for i in live:
+            start = len(src_lines) + 1
+            wl = wrapper_lines(i, items[i])
+            src_lines.extend(wl)
+            for k in range(start, start + len(wl)):
+                owner[k] = i
+        if table:
             src_lines.append("const verif_fn verif_table[] = {")
             liveset = set(live)
             for i in range(len(items)):
                 src_lines.append("\tf_%d," % i if i in liveset else "\t0,")
             src_lines.append("};")
             src_lines.append("const int verif_table_len = %d;" % len(items))
-            with open(base + ".c", "w") as f:
-                f.write("\n".join(src_lines) + "\n")
+        with open(base + ".c", "w") as f:
+            f.write("\n".join(src_lines) + "\n")
+        rc, out = self._cc([self.opt, "-fPIC", "-Werror=implicit-function-declaration",
+                            "-Werror=int-conversion", "-fno-strict-aliasing", "-fmax-errors=0",
+                            "-fno-diagnostics-show-caret", "-fdiagnostics-color=never",
+                            "-I" + self.jit, "-c", base + ".c", "-o", base + ".o"], "batch")
+        return rc, out, owner
+
+    def _blame(self, out, owner, base):
+        bad = {}
+        cur = None
+        for ln in out.split("\n"):
+            m = re.search(r": In function 'f_(\d+)':", ln)
+            if m:
+                cur = int(m.group(1))
+                continue
+            m = re.match(r"^([^:\n]+):(\d+):\d+: (?:fatal )?error: (.*)$", ln)
+            if m:
+                i = owner.get(int(m.group(2))) if m.group(1).endswith(os.path.basename(base) + ".c") else None
+                if i is None:
+                    i = cur
+                if i is not None and i not in bad:
+                    bad[i] = m.group(3)
+        return bad
+
+    def _blame_ext(self, out, owner, base, live, items):
+        """_blame + gcc reports an undeclared function once per unit: every other user of it fails the same way"""
+        bad = self._blame(out, owner, base)
+        for msg in list(bad.values()):
+            m = re.search(r"implicit declaration of function '(\w+)'", msg)
+            if m:
+                for i in live:
+                    if i not in bad and re.search(r"\b%s\(" % re.escape(m.group(1)), items[i].ctext):
+                        bad[i] = msg
+        return bad
+
+    def _filter_alone(self, items, live, base):
+        keep = []
+        for i in live:
+            src = PRELUDE.split("\n") + wrapper_lines(i, items[i])
+            with open(base + "_one.c", "w") as f:
+                f.write("\n".join(src) + "\n")
             rc, out = self._cc([self.opt, "-fPIC", "-Werror=implicit-function-declaration",
-                                "-Werror=int-conversion", "-fno-strict-aliasing", "-fmax-errors=0",
+                                "-Werror=int-conversion", "-fno-strict-aliasing",
                                 "-fno-diagnostics-show-caret", "-fdiagnostics-color=never",
-                                "-I" + self.jit, "-c", base + ".c", "-o", base + ".o"], "batch")
+                                "-I" + self.jit, "-c", base + "_one.c", "-o", base + "_one.o"], "one")
             if rc == 0:
-                break
-            bad = {}
-            cur = None
-            for ln in out.split("\n"):
-                m = re.search(r": In function 'f_(\d+)':", ln)
-                if m:
-                    cur = int(m.group(1))
-                    continue
-                m = re.match(r"^([^:\n]+):(\d+):\d+: (?:fatal )?error: (.*)$", ln)
-                if m:
-                    i = owner.get(int(m.group(2))) if m.group(1).endswith(os.path.basename(base) + ".c") else None
-                    if i is None:
-                        i = cur
-                    if i is not None and i not in bad:
-                        bad[i] = m.group(3)
-            if not bad:
-                raise RuntimeError("batch does not compile and no function is to blame:\n%s" % out[-3000:])
-            for i, msg in bad.items():
-                items[i].compile_error = msg
-            live = [i for i in live if i not in bad]
-        else:
-            raise RuntimeError("batch still does not compile after 4 rounds")
-        so = base + ".so"
-        rc, out = self._cc(["-shared", "-Wl,-z,defs", "-o", so, base + ".o"] + self.build_runtime() + ["-lm", "-lc"], "link")
-        if rc != 0:
-            raise RuntimeError("link failed:\n%s" % out[-3000:])
-        return so
+                keep.append(i)
+            else:
+                m = re.search(r"error: (.*)", out)
+                items[i].compile_error = m.group(1) if m else "does not compile"
+        return keep
 
     # -- running ----------------------------------------------------------
     def _plan(self, items):
